@@ -140,6 +140,31 @@ func enumShapes(maxFaults int) []shape {
 			out = append(out, shape{Stages: 2, FanOut: -1, DupStage: -1, CtxAware: []bool{true, true}, Msgs: 1 + cfg%2, Cfg: cfg, Faults: fs})
 		}
 	}
+	// run block: the same stage fails on 4 or 7 consecutive calls (one kind, or handler and publisher panics mixed):
+	// anything that counts consecutive failures (back-off, circuit breaking, log throttling) would show here
+	for stage := 0; stage < 2; stage++ {
+		for ki := 0; ki <= len(kinds); ki++ {
+			for _, n := range []int{4, 7} {
+				for cfg := 0; cfg < 12; cfg++ {
+					var fs []fault
+					for c := 0; c < n; c++ {
+						k := "handler-panic"
+						if ki < len(kinds) {
+							k = kinds[ki]
+						} else if c%2 == 1 {
+							k = "publisher-panic" // mixed: a publisher panic follows each handler panic
+						}
+						call := c
+						if ki == len(kinds) {
+							call = c / 2 // handler calls 0,1,2.. and publisher calls 0,1,2.. alternate in time
+						}
+						fs = append(fs, fault{stage, k, call})
+					}
+					out = append(out, shape{Stages: 2, FanOut: -1, DupStage: -1, Msgs: 1 + cfg%2, Cfg: cfg, Faults: fs})
+				}
+			}
+		}
+	}
 	enumCache[maxFaults] = out
 	return out
 }
@@ -159,8 +184,9 @@ func init() {
 		Rule: "enumerated part: pipelines of 1..2 Router stages connected by GoChannel topics, 1..2 source messages, all 12 GoChannel configs {buffer 0/1/4 x persistent x blocking}, and EVERY placement of up to 1 (quick) / 2 (thorough) faults {handler error, handler panic, publisher error, publisher panic} on call 0..2 of any stage (exhaustive within these bounds: " + fmt.Sprint(len(enumShapes(1))) + " / " + fmt.Sprint(len(enumShapes(2))) + " cases); " +
 			"plus a batch block: 2 stages that both return 2 messages (batch Publish calls overlapping on consecutive topics) x 1..2 messages x 12 configs x every single fault; " +
 			"plus a context block: 2 stages where the outputs of stage 0 carry the consumed message's context (fresh message with that context / the consumed message itself) x 12 configs x every single fault; " +
+			"plus a run block: one stage fails on 4 or 7 consecutive calls (each fault kind, and handler/publisher panics alternating) x 2 stages x 12 configs; " +
 			"plus a context-aware block: 2 stages whose handlers fail at once when the consumed message's context has ended x 12 configs x every single fault; " +
-			"random part: 1..4 stages, context-aware handlers on half of the stages of 40% of the cases, per-stage output mode {fresh, fresh with the consumed message's context, passthrough of the consumed message}, optional fan-out stage (2 outputs) or 1..3 outputs on every stage, optional stage with two handlers on its topic, optional fan-in (two first stages into one topic), 1..8 messages from 1..2 publisher goroutines, up to 12 faults on random calls, yield injection at the router/gochannel hook points. " +
+			"random part: 1..4 stages, up to 12 faults on random calls plus (30%) a run of 3..10 consecutive failing calls of one stage, context-aware handlers on half of the stages of 40% of the cases, per-stage output mode {fresh, fresh with the consumed message's context, passthrough of the consumed message}, optional fan-out stage (2 outputs) or 1..3 outputs on every stage, optional stage with two handlers on its topic, optional fan-in (two first stages into one topic), 1..8 messages from 1..2 publisher goroutines, up to 12 faults on random calls, yield injection at the router/gochannel hook points. " +
 			"Oracle at quiescence: every accepted source message has >=1 arrival per expected lineage at the sink subscription; every arrival's lineage is one the pipeline can produce from an accepted source message and its payload is intact; the consumed message of a stage is still unsettled when the Publish of its output returns nil; a source Publish never hangs; the process does not crash. " +
 			"Non-trivial: >=1 injected fault actually fired. Distinct = (shape, faults fired, hook fingerprint).",
 		Assumptions: []string{
@@ -209,6 +235,13 @@ func genRandom(e *vlib.Env) shape {
 	}
 	for i, n := 0, r.Intn(13); i < n; i++ {
 		s.Faults = append(s.Faults, fault{r.Intn(s.Stages), kinds[r.Intn(4)], r.Intn(10)})
+	}
+	if r.Chance(0.3) {
+		// a run of 3..10 consecutive failing calls of one stage
+		st, k, from := r.Intn(s.Stages), kinds[r.Intn(4)], r.Intn(3)
+		for i, n := 0, r.Range(3, 10); i < n; i++ {
+			s.Faults = append(s.Faults, fault{st, k, from + i})
+		}
 	}
 	return s
 }
